@@ -12,6 +12,7 @@ from ..lin import Lin, lin, ge, le, lt, gt, eq, entails
 from ..facts import children, strip_all_casts, walk
 
 GHOST = ('ghost', 'linelen')
+SEP = ('ghost', 'wordend')       # 1: the last thing streamed onto the current line was a word of the text
 
 
 def m_stream(eng, n, st, func, want):
@@ -24,9 +25,25 @@ def m_stream(eng, n, st, func, want):
         r0 = strip_all_casts(rhs)
         if r0.get('k') == 'DeclRefExpr' and r0['ref'].get('q') == 'std::endl':
             s0.fields[GHOST] = lin(0)
+            s0.fields[SEP] = lin(0)
             out.append((lv, s0))
             continue
         for v, s1 in eng.ev(rhs, s0, func):
+            is_word = isinstance(v, Obj) and v.name.startswith('tiWord')
+            sep = s1.fields.get(SEP)
+            if is_word:
+                # words of the text are never glued together: since the previous word of this line a blank (or the
+                # line break + indentation) was streamed
+                wl_ = eng.string_len(s1, v.name)
+                s1.assume(ge(wl_, 1))                # the tokenizer yields no empty words
+                held = isinstance(sep, Lin) and entails(s1.cons, le(sep, 0))
+                eng.obligations.append(Obligation(
+                    eng.root, 'separator', 'a word is separated from the previous word of its line (blank or line break)',
+                    held, func.loc(n), '' if held else 'the previous output on this line may be a word; path [%s]' % (
+                        '; '.join(s1.trail[-8:]))))
+                s1.fields[SEP] = lin(1)
+            else:
+                s1.fields[SEP] = lin(0)
             g = s1.fields.get(GHOST)
             add = None
             if isinstance(v, Obj):
@@ -80,17 +97,27 @@ def loop_invariants(eng, st, func, loop):
     g = st.fields.get(GHOST)
     if not isinstance(cur, Lin) or g is None:
         return []
-    return [('tracked length covers the characters on the line (ghost <= currLength)', [le(g, cur)]),
-            ('currLength <= 2^63', [le(cur, 1 << 63), ge(cur, 0)])]
+    inv = [('tracked length covers the characters on the line (ghost <= currLength)', [le(g, cur)]),
+           ('currLength <= 2^63', [le(cur, 1 << 63), ge(cur, 0)])]
+    sep = st.fields.get(SEP)
+    if isinstance(sep, Lin):
+        ind = eng.string_len(st, 'this.mIndentSpaces')
+        inv.append(('a line that ends in a word is longer than the indentation (so the "first word of the line" test '
+                    'sees it)', [ge(sep, 0), le(sep, 1), le(sep, cur - ind)]))
+    return inv
 
 
 def loop_havoc(eng, st, func, loop):
     # the ghost is modified inside the loops (through the stream model): havoc it at every loop head
     st.fields[GHOST] = eng.fresh('linelen', st, 'unsigned long')
+    sp = eng.fresh('wordend', st, 'unsigned long')
+    st.assume(le(sp, 1))
+    st.fields[SEP] = sp
 
 
 def run(chk, prog):
     chk.rule('R3', 'width: a line exceeds the width only if it holds a single word (Engine C with ghost line length)', 4)
+    chk.rule('R5', 'no two words are merged: every word is separated from the previous word of its line', 3)
     f = prog.one('celma::format::TextBlock', 'format')
     cfg = {'invariants': invariants, 'loop_invariants': loop_invariants, 'loop_havoc': loop_havoc,
            'inline': ('celma::format::TextBlock::', 'celma::common::FirstPass::'), 'peel_loops': True,
@@ -101,10 +128,13 @@ def run(chk, prog):
 
     def setup(e, st, func):
         st.fields[GHOST] = lin(0)       # format() starts on a fresh line
+        st.fields[SEP] = lin(0)
         st.fields[('this.mIndentSpaces', 'length')] = e.string_len(st, 'this.mIndentSpaces')
     eng.analyse(f, setup)
     for o in eng.obligations:
         if o.kind in ('width', 'invariant', 'wrap'):
             chk.check(o.held, 'R3', f.name, o.what, o.where, o.detail)
+        elif o.kind == 'separator':
+            chk.check(o.held, 'R5', f.name, o.what, o.where, o.detail)
     if eng.unsupported:
         chk.notes.append('C17-R3 opaque constructs: %s' % sorted(set(eng.unsupported))[:8])
